@@ -480,10 +480,19 @@ macro_rules! impl_bytes_mut_utils {
     ///   2. Pointers are not recoverable, like `*const T`, `*mut T`, `NonNull` and any structs contains pointers,
     ///      although those types are on stack, but they cannot be recovered, when reopens the file.
     pub unsafe fn put_aligned<T>(&mut self, val: T) -> Result<&mut T, InsufficientBuffer> { unsafe {
+      let len = self.len;
       let mut ptr = self.align_to::<T>()?;
 
+      let size = ::core::mem::size_of::<T>();
+      if self.len + size > self.capacity() {
+        // the padding fits but the value does not: give the padding back and write nothing
+        let padded = self.len;
+        self.len = len;
+        return Err(InsufficientBuffer::with_information((padded - len + size) as u64, (self.capacity() - len) as u64));
+      }
+
       ptr.as_ptr().write(val);
-      self.len += ::core::mem::size_of::<T>();
+      self.len += size;
       Ok(ptr.as_mut())
     }}
   };
